@@ -34,6 +34,16 @@ func goEnv() []string {
 	return env
 }
 
+// outDir is where evidence and replay files go (VERIF_OUT overrides it for
+// sensitivity runs against scratch trees, so that they do not overwrite the
+// evidence of the real tree).
+func outDir() string {
+	if r := os.Getenv("VERIF_OUT"); r != "" {
+		return r
+	}
+	return verifDir
+}
+
 func repoDir() string {
 	if r := os.Getenv("VERIF_REPO"); r != "" {
 		return r
@@ -272,7 +282,7 @@ func runWorkers(spec *Spec, b *built, fl string, tier string, n int, runs int, b
 	var wg sync.WaitGroup
 	results := make([]*harness.WorkerResult, n)
 	problems := make([]string, n)
-	replayDir := filepath.Join(verifDir, "replays")
+	replayDir := filepath.Join(outDir(), "replays")
 	for w := 0; w < n; w++ {
 		wg.Add(1)
 		go func(w int) {
@@ -439,7 +449,7 @@ func runCheck(spec *Spec, tier string) int {
 			c, _ := os.ReadFile(l)
 			sb.Write(c)
 		}
-		raceLog = filepath.Join(verifDir, "replays", fmt.Sprintf("%s-%d-race.log", spec.ID, seed()))
+		raceLog = filepath.Join(outDir(), "replays", fmt.Sprintf("%s-%d-race.log", spec.ID, seed()))
 		os.MkdirAll(filepath.Dir(raceLog), 0755)
 		os.WriteFile(raceLog, []byte(sb.String()), 0644)
 		// a report that involves the scheduler goroutine, or no code under
@@ -537,8 +547,8 @@ func runCheck(spec *Spec, tier string) int {
 		exit = 2
 	}
 	ej, _ := json.MarshalIndent(evidence, "", " ")
-	os.MkdirAll(filepath.Join(verifDir, "evidence"), 0755)
-	if err := os.WriteFile(filepath.Join(verifDir, "evidence", spec.ID+".json"), ej, 0644); err != nil {
+	os.MkdirAll(filepath.Join(outDir(), "evidence"), 0755)
+	if err := os.WriteFile(filepath.Join(outDir(), "evidence", spec.ID+".json"), ej, 0644); err != nil {
 		infra("%v", err)
 	}
 	fmt.Printf("%s %s: %d runs (%d plans), %d distinct executions, %d distinct non-trivial, %d violations, %.1fs (build %.1fs) seed=%d\n",
